@@ -46,6 +46,7 @@ type Prog struct {
 	byPath  map[string]*ssa.Package
 	byName  map[string]*ssa.Package // short package name -> package (initial packages win)
 	files   []string                // Go source files of the initial packages (for provenance)
+	byKey   map[string]*ssa.Function // contract key -> function (filled lazily by methodByKey)
 }
 
 func loadModule(m module, patterns []string) (*Prog, error) {
@@ -230,4 +231,38 @@ func (p *Prog) allFuncs() map[string]*ssa.Function {
 		}
 	}
 	return out
+}
+
+// methodFor finds the function implementing method m on concrete type t; for types instantiated with type parameters
+// (generic bodies verified once), where go/ssa has no method value, the generic origin is looked up by its contract key.
+func (p *Prog) methodFor(t types.Type, m *types.Func) *ssa.Function {
+	if sel := p.prog.MethodSets.MethodSet(t).Lookup(m.Pkg(), m.Name()); sel != nil {
+		if fn := p.prog.MethodValue(sel); fn != nil {
+			return fn
+		}
+	}
+	if p.byKey == nil {
+		p.byKey = findFuncs(p)
+	}
+	n := namedOf(t)
+	if n == nil || n.Obj().Pkg() == nil {
+		return nil
+	}
+	_, isPtr := types.Unalias(t).(*types.Pointer)
+	if isPtr {
+		if fn := p.byKey[fmt.Sprintf("%s.(*%s).%s", n.Obj().Pkg().Name(), n.Obj().Name(), m.Name())]; fn != nil {
+			return fn
+		}
+	}
+	return p.byKey[fmt.Sprintf("%s.(%s).%s", n.Obj().Pkg().Name(), n.Obj().Name(), m.Name())]
+}
+
+// isInitial: the package (by short name) is one of the module's own packages (loaded with syntax).
+func (p *Prog) isInitial(name string) bool {
+	for _, sp := range p.ssaPkgs {
+		if sp != nil && sp.Pkg.Name() == name {
+			return true
+		}
+	}
+	return false
 }
